@@ -5,7 +5,8 @@ history of public operations; a plain list-of-records model runs in lock-step; a
 table is compared with its twin (so aliasing damage to operands shows), and an icontract class invariant
 ('rectangular') runs on every dictable the library touches, including temporaries.
 """
-import random
+import random, types
+import numpy as np
 from .. import core, codec, gen, contracts
 from ..core import same, HarnessError
 
@@ -84,7 +85,16 @@ def _fn(spec):
         return eval('lambda %s: %s' % (args[0], args[0]))
     if kind == 'const':
         return eval('lambda %s: 7' % ', '.join(args))
+    if kind == 'kdef':
+        # the loop idiom `lambda a, k=k: ...`: ONE code object, a different default per function
+        if args[0] not in _KDEF:
+            _KDEF[args[0]] = eval('lambda %s, k_=0: "%%r+%%r" %% (%s, k_)' % (args[0], args[0]))
+        base = _KDEF[args[0]]
+        return types.FunctionType(base.__code__, base.__globals__, base.__name__, (spec['k'],), base.__closure__)
     raise HarnessError(kind)
+
+
+_KDEF = {}
 
 
 def _fn_model(spec, row):
@@ -95,6 +105,8 @@ def _fn_model(spec, row):
         return row[args[0]]
     if kind == 'const':
         return 7
+    if kind == 'kdef':
+        return '%r+%r' % (row[args[0]], spec['k'])
     raise HarnessError(kind)
 
 
@@ -370,7 +382,7 @@ def real_apply(op, pool, vals):
     if k == 'mask':
         return T()[list(op['m'])]
     if k == 'ints':
-        return T()[list(op['i'])]
+        return T()[np.array(op['i'], dtype=op['np'])] if op.get('np') else T()[list(op['i'])]
     if k == 'project':
         return T()[list(op['cs'])]
     if k == 'tuple':
@@ -688,6 +700,12 @@ def gen_history(rng, nops):
                 op = {'op': 'mask', 't': t, 'm': mask, 'dst': dst}
         elif k == 'ints' and m.cols and m.n:
             op = {'op': 'ints', 't': t, 'i': [rng.randrange(-m.n, m.n) for _ in range(rng.randint(1, 4))], 'dst': dst}
+            r_ = rng.random()
+            if r_ < 0.25:        # positions given as a numpy integer array; as many as there are rows, all 0/1, is still a list of positions
+                op['i'] = [rng.choice([0, 1]) if m.n > 1 else 0 for _ in range(m.n)]
+                op['np'] = rng.choice(['int64', 'int32'])
+            elif r_ < 0.4:
+                op['np'] = 'int64'
         elif k == 'project' and m.cols:
             op = {'op': 'project', 't': t, 'cs': gen.subset(rng, m.cols, 1), 'dst': dst}
         elif k == 'tuple' and m.cols:
@@ -703,6 +721,8 @@ def gen_history(rng, nops):
             op = {'op': 'derive', 't': t, 'c': rng.choice(free[:2] + m.cols[:1]), 'f': {'fn': rng.choice(['cat', 'cat', 'const'] + (['ident'] if len(args) == 1 else [])), 'args': args}, 'dst': dst}
             if op['f']['fn'] == 'ident':
                 op['f']['args'] = args[:1]
+            if rng.random() < 0.3:
+                op['f'] = {'fn': 'kdef', 'args': args[:1], 'k': rng.choice([1, 2, 3])}
         elif k == 'derive_const' and m.cols:
             r_ = rng.random()
             v = gen.cell(rng) if r_ < 0.5 else gen.cells(rng, m.n) if r_ < 0.8 else gen.cells(rng, rng.choice([x for x in (0, 2, m.n + 1, m.n + 3) if x != m.n and x != 1]))
